@@ -372,7 +372,7 @@ pub fn c14(cx: &mut Ctx) {
     let n = if cx.thorough { 8000 } else { 800 };
     chains(cx, 14, n);
     // the size ladder over the Location value: a long path, a long query, a long host, many dot segments
-    for l in super::ladder(cx.thorough, 16384) {
+    for l in super::ladder(cx.thorough, 32768) {
         let fill: String = (0..l).map(|i| (b'a' + (i % 26) as u8) as char).collect();
         let dots = "../".repeat(l.min(3000));
         let segs = "s/".repeat(l.min(3000));
